@@ -1013,3 +1013,45 @@ class AppSummary:
 class DispatchState(object):'''), (A, "import attr\n", "import attr\nfrom dataclasses import dataclass, field\n"))
 T('k18e_repr_reads_group_key', ['C18'], (META, "    def get_general_items(self):\n        \"Returns list of 2-tuples to appear in the general section table\"\n",
                                          "    def __repr__(self):\n        return '<%s group_key=%r title=%r>' % (self.__class__.__name__, self.group_key, self.title)\n\n    def get_general_items(self):\n        \"Returns list of 2-tuples to appear in the general section table\"\n"))
+
+# R18.e in other shapes: the representation assembled by a helper method / by a mixin from a table of attribute names
+_PAIRS_REPR = '''    def repr_pairs(self):
+        return [('routes_count', len(self.routes)), ('resources_keys', sorted(self.resources)),
+                ('middlewares', self.middlewares), ('debug', self.debug)]
+
+    def __repr__(self):
+        return '<%s %s>' % (self.__class__.__name__, ' '.join('%s=%r' % pair for pair in self.repr_pairs()))
+'''
+T('k18e_repr_from_pairs_method', ['C18'], (A, _APP_REPR_DEF, _PAIRS_REPR))
+B('k18e_repr_from_pairs_method_values', ['C18'], 'R18.e', (A, _APP_REPR_DEF, _PAIRS_REPR.replace("('resources_keys', sorted(self.resources))", "('resources', dict(self.resources))")))
+_MIXIN = '''class AttrReprMixin(object):
+    repr_attrs = ()
+
+    def __repr__(self):
+        shown = ' '.join('%s=%r' % (name, getattr(self, name)) for name in self.repr_attrs)
+        return '<%s %s>' % (self.__class__.__name__, shown)
+
+
+class Application(AttrReprMixin):
+    repr_attrs = ('middlewares', 'render_factory', 'slash_mode', 'debug')
+'''
+T('k18e_repr_mixin_attr_table', ['C18'], (A, "class Application(object):\n", _MIXIN), (A, _APP_REPR_DEF, ''))
+B('k18e_repr_mixin_attr_table_resources', ['C18'], 'R18.e', (A, "class Application(object):\n", _MIXIN.replace("('middlewares', ", "('resources', 'middlewares', ")), (A, _APP_REPR_DEF, ''))
+B('k18e_repr_assigned_function', ['C18'], 'R18.e', (A, "class Application(object):\n", '''def _show_all(obj):
+    return '<%s %r>' % (obj.__class__.__name__, obj.resources)
+
+
+class Application(object):
+    __str__ = _show_all
+'''))
+T('k18e_view_calls_iter_routes', ['C18'], (META, "    for r in app.routes:\n        if isinstance(r, NullRoute):", "    for r in app.iter_routes():\n        if isinstance(r, NullRoute):"))
+T('k18f_rows_from_zip_and_namedtuple', ['C18'], (META, GMI, '''_MW_FIELDS = ('type_name', 'provides', 'requires', 'repr')
+
+
+def get_mw_infos(_application):
+    ret = []
+    for mw in _application.middlewares:
+        values = (mw.__class__.__name__, mw.provides, mw.requires, repr(mw))
+        ret.append(dict(zip(_MW_FIELDS, values)))
+    return ret
+'''))
